@@ -19,6 +19,7 @@ package main
 
 import (
 	"bytes"
+	"context"
 	"crypto/hmac"
 	"crypto/sha1"
 	"crypto/sha256"
@@ -47,10 +48,9 @@ import (
 
 	"github.com/gorilla/mux"
 	"google.golang.org/grpc"
-	"google.golang.org/grpc/codes"
-	"google.golang.org/grpc/status"
 
 	"github.com/chrislusf/seaweedfs/weed/iamapi"
+	"github.com/chrislusf/seaweedfs/weed/pb/filer_pb"
 	"github.com/chrislusf/seaweedfs/weed/s3api"
 
 	"verifharness/hx"
@@ -86,14 +86,22 @@ func newFakeFiler() *fakeFiler {
 	f := &fakeFiler{}
 	gl, err := net.Listen("tcp", "127.0.0.1:0")
 	must(err)
-	gs := grpc.NewServer(grpc.UnknownServiceHandler(func(srv interface{}, stream grpc.ServerStream) error {
-		m, _ := grpc.MethodFromServerStream(stream)
-		name := m[strings.LastIndex(m, "/")+1:]
+	rec := func(full string) {
+		name := full[strings.LastIndex(full, "/")+1:]
 		if name != "SubscribeMetadata" { // the server's own background subscription, not caused by a request
 			f.record("grpc:" + name)
 		}
-		return status.Error(codes.Unimplemented, "fake filer")
-	}))
+	}
+	gs := grpc.NewServer(
+		grpc.UnaryInterceptor(func(ctx context.Context, req interface{}, info *grpc.UnaryServerInfo, handler grpc.UnaryHandler) (interface{}, error) {
+			rec(info.FullMethod)
+			return handler(ctx, req)
+		}),
+		grpc.StreamInterceptor(func(srv interface{}, ss grpc.ServerStream, info *grpc.StreamServerInfo, handler grpc.StreamHandler) error {
+			rec(info.FullMethod)
+			return handler(srv, ss)
+		}))
+	filer_pb.RegisterSeaweedFilerServer(gs, &fakeFilerSvc{})
 	go gs.Serve(gl)
 	f.grpcAddr = gl.Addr().String()
 	hs := httptest.NewServer(http.HandlerFunc(func(w http.ResponseWriter, r *http.Request) {
@@ -110,6 +118,16 @@ func newFakeFiler() *fakeFiler {
 	}))
 	f.httpAddr = strings.TrimPrefix(hs.URL, "http://")
 	return f
+}
+
+// fakeFilerSvc answers every lookup with an existing directory entry (so handlers that first check
+// existence go on) and everything else with Unimplemented.
+type fakeFilerSvc struct {
+	filer_pb.UnimplementedSeaweedFilerServer
+}
+
+func (s *fakeFilerSvc) LookupDirectoryEntry(ctx context.Context, req *filer_pb.LookupDirectoryEntryRequest) (*filer_pb.LookupDirectoryEntryResponse, error) {
+	return &filer_pb.LookupDirectoryEntryResponse{Entry: &filer_pb.Entry{Name: req.Name, IsDirectory: true, Attributes: &filer_pb.FuseAttributes{}}}, nil
 }
 
 // ---------------------------------------------------------------- configurations
@@ -353,7 +371,7 @@ func bodyFor(handler string) string {
 	case "DeleteMultipleObjectsHandler":
 		return `<Delete><Object><Key>k1</Key></Object></Delete>`
 	case "PutObjectTaggingHandler":
-		return `<Tagging><TagSet><Tag><Key>a</Key><Value>b</Value></Tag></TagSet></Tagging>`
+		return `<Tagging xmlns="http://s3.amazonaws.com/doc/2006-03-01/"><TagSet><Tag><Key>a</Key><Value>b</Value></Tag></TagSet></Tagging>`
 	case "PutObjectHandler", "PutObjectPartHandler":
 		return "hello-verif"
 	}
@@ -375,7 +393,7 @@ func policyForm(q reqSpec, bucket string, now time.Time) string {
 		w.WriteField("x-amz-algorithm", "AWS4-HMAC-SHA256")
 		w.WriteField("x-amz-credential", q.fak+"/"+day+"/"+region+"/s3/aws4_request")
 		w.WriteField("x-amz-date", now.UTC().Format("20060102T150405Z"))
-		if q.fvalid == "tamper" {
+		if q.fvalid != "valid" {
 			pol64 = base64.StdEncoding.EncodeToString([]byte(strings.Replace(pol, "formkey", "formkeY", 1)))
 		}
 		w.WriteField("policy", pol64)
@@ -383,7 +401,7 @@ func policyForm(q reqSpec, bucket string, now time.Time) string {
 	case "pol2":
 		sig := hmacSHA1b64(q.fsk, pol64)
 		w.WriteField("AWSAccessKeyId", q.fak)
-		if q.fvalid == "tamper" {
+		if q.fvalid != "valid" {
 			pol64 = base64.StdEncoding.EncodeToString([]byte(strings.Replace(pol, "formkey", "formkeY", 1)))
 		}
 		w.WriteField("policy", pol64)
@@ -524,7 +542,7 @@ func build(q reqSpec, handlerOf func(*http.Request) string) *http.Request {
 		canon, sh := canonicalV4(q.method, q.path, qv.Encode(), signed, payloadHash)
 		sig := hex.EncodeToString(hmac256(signingKey(q.sk, day), stringToSignV4(canon, ts, day)))
 		h.Set("Authorization", fmt.Sprintf("AWS4-HMAC-SHA256 Credential=%s/%s/%s/s3/aws4_request, SignedHeaders=%s, Signature=%s", q.ak, day, region, sh, sig))
-		if q.validity == "tamper" {
+		if q.validity != "valid" {
 			h.Set("X-Amz-Meta-Note", "n2")
 		}
 		if q.sha == "streaming" && (handler == "PutObjectHandler" || handler == "PutObjectPartHandler") {
@@ -539,7 +557,7 @@ func build(q reqSpec, handlerOf func(*http.Request) string) *http.Request {
 		canon, _ := canonicalV4(q.method, q.path, all.Encode(), map[string]string{"host": host}, unsignedOr(h))
 		pts := presignVals.Get("X-Amz-Date")
 		sig := hex.EncodeToString(hmac256(signingKey(q.sk, pts[:8]), stringToSignV4(canon, pts, pts[:8])))
-		if q.validity == "tamper" {
+		if q.validity != "valid" && q.validity != "expired" {
 			sig = flipHex(sig)
 		}
 		return mk(joinq(query, presignVals.Encode()+"&X-Amz-Signature="+sig), body)
@@ -548,7 +566,7 @@ func build(q reqSpec, handlerOf func(*http.Request) string) *http.Request {
 		h.Set("Date", date)
 		sts := v2StringToSign(q.method, q.path, query, h, date)
 		h.Set("Authorization", "AWS "+q.ak+":"+hmacSHA1b64(q.sk, sts))
-		if q.validity == "tamper" {
+		if q.validity != "valid" {
 			h.Set("Date", now.Add(time.Minute).Format(http.TimeFormat))
 		}
 		return mk(query, body)
@@ -559,7 +577,7 @@ func build(q reqSpec, handlerOf func(*http.Request) string) *http.Request {
 		}
 		sts := v2StringToSign(q.method, q.path, query, h, exp)
 		sig := hmacSHA1b64(q.sk, sts)
-		if q.validity == "tamper" {
+		if q.validity != "valid" && q.validity != "expired" {
 			sig = hmacSHA1b64(q.sk, sts+"x")
 		}
 		addq("AWSAccessKeyId=" + url.QueryEscape(q.ak) + "&Expires=" + exp + "&Signature=" + url.QueryEscape(sig))
@@ -629,9 +647,15 @@ func runReq(q reqSpec) {
 		return nil
 	})
 	calls := s.filer.take()
-	eff := "0"
-	if len(calls) > 0 {
-		eff = "1"
+	eff := "0" // 0 nothing reached the filer, 1 only entry lookups, 2 anything more
+	for _, c := range calls {
+		if c == "grpc:LookupDirectoryEntry" {
+			if eff == "0" {
+				eff = "1"
+			}
+		} else {
+			eff = "2"
+		}
 	}
 	first := "-"
 	if len(calls) > 0 {
@@ -966,7 +990,10 @@ func emitFacts(s *server) {
 		} else {
 			flags = []string{"nosource"}
 		}
-		tr.Op("hverify", []string{r.handler, strings.Join(append(flags, ""), ",")}, nil)
+		if len(flags) == 0 {
+			flags = []string{"-"}
+		}
+		tr.Op("hverify", []string{r.handler, strings.Join(flags, ",")}, nil)
 	}
 }
 
@@ -1113,14 +1140,17 @@ func generate(a *hx.Args, rng *hx.Rng) {
 								}
 							}
 							shx := sh
-							if sh.method == "POST" && sh.ctype != "multipart" && rng.Chance(1, 3) {
-								shx.ctype = "multipart" // confusion: multipart content type on any POST route
+							if sh.method == "POST" && sh.ctype != "multipart" && k == n-1 && sha == "none" {
+								shx.ctype = "multipart" // confusion: multipart content type on every POST route
 							}
 							// thin the grid deterministically in the quick tier
 							if !a.Thorough() && a.Budget <= 1 && (bi+si+k)%3 != int(a.Seed%3) && !(sha == "streaming" && sh.method == "PUT") && sh.method != "POST" {
 								continue
 							}
 							emit(shx, style, cc, validity, sha, form, fc, fvalid)
+							if shx.ctype != sh.ctype && !signed {
+								emit(sh, style, cc, validity, sha, form, fc, fvalid)
+							}
 						}
 					}
 				}
